@@ -194,8 +194,10 @@ func runC12(cfg *vh.Config) error {
 						}
 					} else {
 						res.Count("compile-failed")
-						if p.Class != "compile-error" && !strings.Contains(ur.note, "shape") {
+						if p.Class != "compile-error" {
 							res.Count("compile-failed-unexpected")
+							res.Fail(vh.Failure{Case: caseNo, Stream: "compile", Sig: "C12 valid field declaration does not compile: " + firstWords(ur.note, 10),
+								Clause: "for all valid j5s field declarations (the declaration compiles)", Input: map[string]any{"j5s": p.P.J5S(theEnum)}, Got: ur.note})
 						}
 					}
 					cf.Terms = append(cf.Terms, fmt.Sprintf("C12Case %s %d %s %s [%s]", theEnum.Coq(), idx, dterm, ur.obs[i], strings.Join(pairs, ";")))
